@@ -39,7 +39,9 @@ func (node *tagMacroNode) call(ctx *ExecutionContext, args ...*Value) (*Value, e
 
 	argsCtx := make(Context)
 
-	for k, v := range node.args {
+	// (in declaration order, not in the iteration order of the map)
+	for _, k := range node.argsOrder {
+		v := node.args[k]
 		if v == nil {
 			// User did not provided a default value
 			argsCtx[k] = nil
